@@ -1,7 +1,8 @@
 // C13 — cubical complexes are valid filtered cell complexes with correct incidences.
-// Shared, class-templated monitor.  The two translation units instantiate it for
+// Shared, class-templated monitor.  The translation units instantiate it for
 //   Bitmap_cubical_complex<Bitmap_cubical_complex_base<double>>                                  (c13_plain.cpp)
 //   Bitmap_cubical_complex<Bitmap_cubical_complex_periodic_boundary_conditions_base<double>>     (c13_periodic.cpp)
+//   the same two with T = float                                                                  (c13_float_plain.cpp, c13_float_periodic.cpp)
 #ifndef VERIF_C13_COMMON_H_
 #define VERIF_C13_COMMON_H_
 
@@ -15,6 +16,12 @@
 
 #include <cmath>
 #include <memory>
+#include <fstream>
+#include <iostream>
+#include <type_traits>
+#include <unistd.h>
+#include <sys/wait.h>
+#include <cerrno>
 
 namespace c13 {
 
@@ -22,10 +29,12 @@ using cubical_model::Grid;
 using cubical_model::Coord;
 using cubical_model::Inc;
 
-typedef Gudhi::cubical_complex::Bitmap_cubical_complex_base<double> Base;
-typedef Gudhi::cubical_complex::Bitmap_cubical_complex<Base> Plain;
-typedef Gudhi::cubical_complex::Bitmap_cubical_complex_periodic_boundary_conditions_base<double> PBase;
-typedef Gudhi::cubical_complex::Bitmap_cubical_complex<PBase> Periodic;
+template <class FT> using BaseOf = Gudhi::cubical_complex::Bitmap_cubical_complex_base<FT>;
+template <class FT> using PBaseOf = Gudhi::cubical_complex::Bitmap_cubical_complex_periodic_boundary_conditions_base<FT>;
+typedef Gudhi::cubical_complex::Bitmap_cubical_complex<BaseOf<double>> Plain;
+typedef Gudhi::cubical_complex::Bitmap_cubical_complex<PBaseOf<double>> Periodic;
+typedef Gudhi::cubical_complex::Bitmap_cubical_complex<BaseOf<float>> PlainF;
+typedef Gudhi::cubical_complex::Bitmap_cubical_complex<PBaseOf<float>> PeriodicF;
 
 const double kInf = std::numeric_limits<double>::infinity();
 
@@ -38,64 +47,175 @@ const bool kSkipSignChecks = false;
 #endif
 
 // ------------------------------------------------------------------------------------------------ case description
+enum Route { kVector = 0, kFile = 1 };   // how the object under test is built
+enum Compare { kReduction = 0,           // diagram against the naive reduction of the model + closed-form Betti numbers
+               kConstant = 1,            // constant grid: closed-form Betti numbers, no finite interval of positive length
+               kBettiOnly = 2 };         // (large random grids) closed-form Betti numbers only
+
 struct Spec {
   bool periodic_class = false;
+  bool is_float = false;
   bool vertex_input = false;
   std::vector<int> n;        // top cells per direction
   std::vector<char> per;
-  std::vector<double> input; // values of the top cells / vertices, first direction fastest
+  std::vector<double> input; // values of the top cells / vertices, first direction fastest (exactly representable in float)
   bool do_persistence = true;
-  bool oracle_reduction = true;   // false: only the closed-form Betti numbers are compared (constant grids)
+  Compare compare = kReduction;
+  int third_prime = 5;       // the persistence comparison runs over Z_2, Z_3 and this prime
+  Route route = kVector;
+  bool file_final_newline = true;   // route == kFile: the last value is followed by a newline
+  int file_format = 0;              // route == kFile: 0 "%.17g", 1 "%.6f", 2 "%e"
+  bool probe_self = false;          // compute_incidence_between_cells(p, p) is probed in every case (default: one case in 16; a fork under ASan is expensive)
 };
 
+template <class FT_, bool PER>
+struct MakerT {
+  typedef FT_ FT;
+  typedef typename std::conditional<PER, PBaseOf<FT>, BaseOf<FT>>::type BaseT;
+  typedef Gudhi::cubical_complex::Bitmap_cubical_complex<BaseT> Cx;
+  static constexpr bool periodic_class = PER;
+  static constexpr bool is_float = std::is_same<FT, float>::value;
+  static std::unique_ptr<Cx> make(const std::vector<unsigned>& dims, const std::vector<FT>& cells, const std::vector<bool>& dirs, bool top) {
+    if constexpr (PER) return std::unique_ptr<Cx>(new Cx(dims, cells, dirs, top));
+    else return std::unique_ptr<Cx>(new Cx(dims, cells, top));
+  }
+  static std::unique_ptr<Cx> make_file(const char* path) { return std::unique_ptr<Cx>(new Cx(path)); }
+  // the public "empty bitmap" constructors of the base classes (sizes = numbers of top-dimensional cells)
+  static std::unique_ptr<BaseT> make_sizes(const std::vector<unsigned>& sizes, const std::vector<bool>& dirs) {
+    if constexpr (PER) return std::unique_ptr<BaseT>(new BaseT(sizes, dirs));
+    else return std::unique_ptr<BaseT>(new BaseT(sizes));
+  }
+};
 template <class Cx> struct Maker;
-template <> struct Maker<Plain> {
-  static constexpr bool periodic_class = false;
-  static std::unique_ptr<Plain> make(const std::vector<unsigned>& dims, const std::vector<double>& cells, const std::vector<bool>&, bool top) {
-    return std::unique_ptr<Plain>(new Plain(dims, cells, top));
-  }
-};
-template <> struct Maker<Periodic> {
-  static constexpr bool periodic_class = true;
-  static std::unique_ptr<Periodic> make(const std::vector<unsigned>& dims, const std::vector<double>& cells, const std::vector<bool>& dirs, bool top) {
-    return std::unique_ptr<Periodic>(new Periodic(dims, cells, dirs, top));
-  }
-};
+template <> struct Maker<Plain> : MakerT<double, false> {};
+template <> struct Maker<Periodic> : MakerT<double, true> {};
+template <> struct Maker<PlainF> : MakerT<float, false> {};
+template <> struct Maker<PeriodicF> : MakerT<float, true> {};
 
 inline std::string mask_str(const std::vector<char>& per) { std::string s; for (char b : per) s += b ? '1' : '0'; return s; }
 
+inline std::string class_sig(const Spec& s) {
+  return std::string("class=") + (s.periodic_class ? "periodic" : "plain") + (s.is_float ? ",T=float" : "");
+}
 inline std::string base_sig(const Spec& s) {
-  return std::string("class=") + (s.periodic_class ? "periodic" : "plain") + ",input=" + (s.vertex_input ? "vertices" : "top") +
-         ",d=" + vh::str(s.n.size()) + ",periodic_dirs=" + vh::str(std::count(s.per.begin(), s.per.end(), (char)1));
+  return class_sig(s) + ",input=" + (s.vertex_input ? "vertices" : "top") +
+         ",d=" + vh::str(s.n.size()) + ",periodic_dirs=" + vh::str(std::count(s.per.begin(), s.per.end(), (char)1)) +
+         (s.route == kFile ? ",route=file" : "");
 }
 
 inline std::string dstr(double v) { if (v == kInf) return "inf"; if (v == -kInf) return "-inf"; return vh::str(v); }
 
+// ------------------------------------------------------------------------------------------------ Perseus-style files
+// The documented format: dimension, then one line per direction with the number of top-dimensional cells (multiplied by -1 in
+// a periodic direction), then one value per line, first direction fastest; +infinity is written `inf`.
+inline std::string perseus_text(const Spec& S) {
+  std::string t = vh::str(S.n.size()) + "\n";
+  for (size_t i = 0; i < S.n.size(); ++i) t += vh::str(S.per[i] ? -S.n[i] : S.n[i]) + "\n";
+  for (size_t i = 0; i < S.input.size(); ++i) {
+    char buf[64];
+    if (S.input[i] == kInf) snprintf(buf, sizeof buf, "inf");
+    else snprintf(buf, sizeof buf, S.file_format == 0 ? "%.17g" : S.file_format == 1 ? "%.6f" : "%e", S.input[i]);
+    t += buf;
+    if (i + 1 < S.input.size() || S.file_final_newline) t += "\n";
+  }
+  return t;
+}
+
+// A temporary file that cannot be left behind: it is unlinked before the library reads it (through /proc/self/fd) when that
+// is possible, otherwise when this object dies.
+struct TempFile {
+  int fd = -1;
+  std::string name, path;
+  explicit TempFile(const std::string& text) {
+    char tmpl[] = "/tmp/verif_c13_XXXXXX";
+    fd = mkstemp(tmpl);
+    if (fd < 0) throw std::runtime_error("mkstemp failed");
+    name = tmpl;
+    const char* p = text.data(); size_t left = text.size();
+    while (left) { ssize_t w = ::write(fd, p, left); if (w <= 0) break; p += w; left -= (size_t)w; }
+    path = "/proc/self/fd/" + vh::str(fd);
+    std::ifstream probe(path.c_str());
+    std::string all((std::istreambuf_iterator<char>(probe)), std::istreambuf_iterator<char>());
+    if (probe && all == text) { ::unlink(name.c_str()); name.clear(); }
+    else path = name;
+  }
+  ~TempFile() { if (fd >= 0) ::close(fd); if (!name.empty()) ::unlink(name.c_str()); }
+};
+
+// std::cerr of the library ("Cells given to compute_incidence_between_cells procedure do not form ...") is muted while a
+// documented exception is provoked
+struct MuteCerr {
+  std::ios_base::iostate old;
+  MuteCerr() : old(std::cerr.rdstate()) { std::cerr.setstate(std::ios::failbit); }
+  ~MuteCerr() { std::cerr.clear(old); }
+};
+
+// Runs fn in a forked child and returns its exit status (fn's return value, 0..100), or -signal when the child died.
+// Used where a defective library is known to take the whole process down (abort from a sanitizer / a libstdc++ assertion):
+// the parent survives, keeps its counters and can name the input class in the signature.
+const int kForkFailed = -2000;   // (resource shortage) the caller goes on without the protection of a child process
+template <class F>
+int forked(F fn) {
+  fflush(nullptr);
+  pid_t pid = fork();
+  if (pid < 0) return kForkFailed;
+  if (pid == 0) {
+    vh::G().cur_case = -1;     // no history record from the child
+    alarm(30);
+    int rc = 100;
+    try { rc = fn(); } catch (...) { rc = 99; }
+    _exit(rc);
+  }
+  int st = 0;
+  while (waitpid(pid, &st, 0) < 0 && errno == EINTR) {}
+  if (WIFEXITED(st)) return WEXITSTATUS(st);
+  return WIFSIGNALED(st) ? -WTERMSIG(st) : -1000;
+}
+
+// ------------------------------------------------------------------------------------------------ non-incident pairs
+// "@exception std::logic_error In case when the cube B is not n-1 dimensional face of a cube A."
+// returns 0: std::logic_error, 1: a value was returned, 2: another exception
+template <class Cx>
+int incidence_outcome(Cx& b, size_t p, size_t q, int* value) {
+  MuteCerr mute;
+  try { *value = b.compute_incidence_between_cells(p, q); return 1; }
+  catch (const std::logic_error&) { return 0; }
+  catch (...) { return 2; }
+}
+
 // ------------------------------------------------------------------------------------------------ the monitor
 template <class Cx>
 void check_grid(vh::Case& c, const Spec& S) {
+  typedef typename Maker<Cx>::FT FT;
   const int d = (int)S.n.size();
   Grid G(S.n, S.per);
   const std::string sig0 = base_sig(S);
 
   // ---- log the complete input (enough to rebuild the case by hand)
   {
-    std::string l = std::string(S.periodic_class ? "periodic_class" : "plain_class") + " input=" + (S.vertex_input ? "vertices" : "top_cells") + " shape=[";
+    std::string l = std::string(S.periodic_class ? "periodic_class" : "plain_class") + (S.is_float ? "<float>" : "") + " input=" + (S.vertex_input ? "vertices" : "top_cells") + " shape=[";
     for (int i = 0; i < d; ++i) { if (i) l += ","; l += vh::str(S.vertex_input ? G.nvert(i) : S.n[i]); }
     l += "] periodic=" + mask_str(S.per) + " values=[";
     for (size_t i = 0; i < S.input.size(); ++i) { if (i) l += ","; l += dstr(S.input[i]); }
-    c.log(l + "]");
+    l += "]";
+    if (S.route == kFile) l += std::string(" built from a Perseus-style file, value format ") + (S.file_format == 0 ? "%.17g" : S.file_format == 1 ? "%.6f" : "%e") +
+                               (S.file_final_newline ? ", final newline" : ", NO newline after the last value");
+    if (S.third_prime != 5) l += " primes=2,3," + vh::str(S.third_prime);
+    c.log(l);
   }
   c.count(std::string("grid.class.") + (S.periodic_class ? "periodic" : "plain"));
   c.count(std::string("grid.input.") + (S.vertex_input ? "vertices" : "top"));
   c.count("grid.d" + vh::str(d) + ".m" + mask_str(S.per));
-  bool side1 = false, side0 = false;
-  for (int i = 0; i < d; ++i) { if (S.n[i] == 1) side1 = true; if (S.n[i] == 0) side0 = true; }
+  if (S.is_float) c.count("grid.float");
+  bool side1 = false, side0 = false; int longest = 0;
+  for (int i = 0; i < d; ++i) { if (S.n[i] == 1) side1 = true; if (S.n[i] == 0) side0 = true; longest = std::max(longest, S.n[i]); }
   bool len1 = false;  // a side of length 1 in the units of the input convention
   for (int i = 0; i < d; ++i) if ((S.vertex_input ? G.nvert(i) : S.n[i]) == 1) len1 = true;
   if (len1) c.count("grid.length1_side");
   if (side1) c.count("grid.one_cell_side");
   if (side0) c.count("grid.single_vertex_side");
+  if (longest > 4 && S.compare != kConstant) c.count("grid.long_side_random_values");
+  if (longest >= 100 && S.compare != kConstant) c.count("grid.side_ge_100_random_values");
   size_t ninf = 0; for (double v : S.input) ninf += (v == kInf);
   if (ninf) c.count("grid.has_inf");
   if (std::count(S.input.begin(), S.input.end(), -kInf)) c.count("grid.has_neg_inf");
@@ -106,7 +226,26 @@ void check_grid(vh::Case& c, const Spec& S) {
   // ---- build the real object
   std::vector<unsigned> dims; std::vector<bool> dirs;
   for (int i = 0; i < d; ++i) { dims.push_back((unsigned)(S.vertex_input ? G.nvert(i) : S.n[i])); dirs.push_back(S.per[i] != 0); }
-  std::unique_ptr<Cx> bp = Maker<Cx>::make(dims, S.input, dirs, !S.vertex_input);
+  std::vector<FT> input_ft(S.input.begin(), S.input.end());
+  std::unique_ptr<Cx> bp;
+  const std::string fsig = class_sig(S) + ",route=file," + (S.file_final_newline ? "final_newline" : "no_final_newline") + (ninf ? ",has_inf" : ",finite");
+  if (S.route == kVector) {
+    bp = Maker<Cx>::make(dims, input_ft, dirs, !S.vertex_input);
+  } else {
+    c.count("file.built");
+    c.count(S.file_final_newline ? "file.final_newline" : "file.no_final_newline");
+    if (ninf) c.count("file.has_inf");
+    TempFile tf(perseus_text(S));
+    int canary = forked([&]() { try { Maker<Cx>::make_file(tf.path.c_str()); return 0; } catch (const std::exception&) { return 3; } });
+    if (canary == kForkFailed) c.count("skip.fork_failed");
+    else if (canary != 0 && canary != 3) {
+      c.violation("file.constructor_survives", fsig, "the process " + (canary < 0 ? "died with signal " + vh::str(-canary) : "exited with status " + vh::str(canary)) +
+                  " inside the Perseus-style file constructor (run in a forked child; its sanitizer / assertion report is on stderr)");
+      return;
+    }
+    try { bp = Maker<Cx>::make_file(tf.path.c_str()); }
+    catch (const std::exception& e) { c.violation("file.constructor_accepts", fsig, std::string("the Perseus-style file constructor threw: ") + e.what()); return; }
+  }
   Cx& b = *bp;
 
   // ---- sizes
@@ -118,15 +257,34 @@ void check_grid(vh::Case& c, const Spec& S) {
   std::vector<Coord> coord(N);
   std::vector<int> mdim(N);
   for (size_t p = 0; p < N; ++p) { coord[p] = G.coord(p); mdim[p] = Grid::dim(coord[p]); }
+  std::vector<double> mval = S.vertex_input ? G.values_from_vertices(S.input) : G.values_from_top(S.input);
 
-  // ---- the input order of the public iterators identifies handles with grid cells
-  if (!side0) {
+  // ---- a complex read from a file equals the complex built from the same top-cell values
+  if (S.route == kFile) {
+    size_t bad = 0, first = 0;
+    for (size_t p = N; p-- > 0;) if (!((double)b.get_cell_data(p) == mval[p])) { ++bad; first = p; }
+    if (!c.expect(bad == 0, "file.equals_vector_built", fsig, vh::str(bad) + " cells differ, first: cell " + vh::str(first) + " " + G.show(coord[first]) +
+                  " file-built " + dstr(bad ? (double)b.get_cell_data(first) : 0) + " expected " + dstr(mval[first]))) return;
+  }
+
+  // ---- the input order of the public iterators identifies handles with grid cells.  A vertex grid with a single vertex in some
+  //      direction has no cell of dimension dimension(): the range of top-dimensional cells has to be empty.
+  {
     std::vector<size_t> want = G.top_positions(), got;
     for (auto it = b.top_dimensional_cells_iterator_begin(); it != b.top_dimensional_cells_iterator_end(); ++it) {
       got.push_back(*it);
       if (got.size() > want.size() + 2) break;
     }
-    if (!c.expect(got == want, "handles.top_cells_order", sig0, "top-dimensional cells iterator yields " + vh::vstr(got) + " model " + vh::vstr(want))) return;
+    if (side0) {
+      // a pure query: the case goes on after a violation
+      c.count("cmp.handles.top_cells_empty_range");
+      if (!got.empty()) c.violation("handles.top_cells_order", class_sig(S) + ",single_vertex_side,expected_empty_range",
+                                    "the grid has no cell of dimension " + vh::str(d) + " but the top-dimensional cells iterator yields " + vh::vstr(got));
+      size_t k = 0; for (auto h : b.top_dimensional_cells_range()) { (void)h; if (++k > 2) break; }
+      if (got.empty() && k) c.violation("handles.top_cells_order", class_sig(S) + ",single_vertex_side,expected_empty_range", "top_dimensional_cells_range() is not empty");
+    } else {
+      if (!c.expect(got == want, "handles.top_cells_order", sig0, "top-dimensional cells iterator yields " + vh::vstr(got) + " model " + vh::vstr(want))) return;
+    }
   }
   {
     std::vector<size_t> want = G.vertex_positions(), got;
@@ -138,7 +296,6 @@ void check_grid(vh::Case& c, const Spec& S) {
   }
 
   // ---- per cell: dimension, boundary, coboundary, value, incidence numbers, dd = 0
-  std::vector<double> mval = S.vertex_input ? G.values_from_vertices(S.input) : G.values_from_top(S.input);
   std::vector<std::vector<size_t>> gb(N), gcb(N);
   std::vector<std::vector<size_t>> mfaces(N);   // model faces as positions (used later for the order / the oracle)
   std::vector<std::vector<int>> msign(N);
@@ -179,8 +336,31 @@ void check_grid(vh::Case& c, const Spec& S) {
 
     // value
     double gv = b.filtration(p);
-    if (!c.expect(gv == mval[p] && b.get_cell_data(p) == mval[p], S.vertex_input ? "value.max_over_vertices" : "value.min_over_top_cells", cs,
+    if (!c.expect(gv == mval[p] && (double)b.get_cell_data(p) == mval[p], S.vertex_input ? "value.max_over_vertices" : "value.min_over_top_cells", cs,
                   "cell " + vh::str(p) + " " + G.show(coord[p]) + " value " + dstr(gv) + " model " + dstr(mval[p]))) return;
+  }
+
+  // ---- representatives: a top-dimensional cell containing the cell (top-cell input) / a vertex of the cell (vertex input) with the
+  //      same value; any such cell is accepted ("an arbitrary one is returned").  The documented precondition (values as per
+  //      impose_lower_star_filtration[_from_vertices]) holds for the matching input convention only.
+  for (size_t p = 0; p < N; ++p) {
+    const std::string cs = sig0 + ",celldim=" + vh::str(mdim[p]);
+    size_t t = S.vertex_input ? b.get_vertex_of_a_cell(p) : b.get_top_dimensional_coface_of_a_cell(p);
+    const char* id = S.vertex_input ? "representative.vertex_of_a_cell" : "representative.top_dimensional_coface";
+    c.count(S.vertex_input ? "cmp.representative.vertex" : "cmp.representative.top_coface");
+    bool ok = t < N && mdim[t] == (S.vertex_input ? 0 : d);
+    bool wrapped = false;
+    for (int i = 0; ok && i < d; ++i) {
+      // in every direction the two coordinates are equal or neighbours (with wrap-around in a periodic direction)
+      int x = coord[p][i], y = coord[t][i];
+      if (x == y) continue;
+      bool nb = (G.step(i, x, 1) == y) || (G.step(i, x, -1) == y);
+      if (!nb) ok = false;
+      else if (std::abs(x - y) != 1) wrapped = true;
+    }
+    if (wrapped) c.count("representative.across_the_wrap");
+    if (!ok) { c.violation(id, cs, "cell " + vh::str(p) + " " + G.show(coord[p]) + ": returned " + vh::str(t) + (t < N ? " " + G.show(coord[t]) : std::string()) + ", not an incident cell of the requested dimension"); return; }
+    if (!(mval[t] == mval[p])) { c.violation(id, cs + ",value", "cell " + vh::str(p) + " value " + dstr(mval[p]) + ": returned " + vh::str(t) + " of value " + dstr(mval[t])); return; }
   }
 
   // ---- boundary and coboundary are converse relations (from the library's answers only)
@@ -241,6 +421,101 @@ void check_grid(vh::Case& c, const Spec& S) {
     }
   }
 
+  // ---- compute_incidence_between_cells(A, B) throws std::logic_error when B is not a codimension-1 face of A (documented).
+  //      Pure queries: the case goes on after a violation (one violation per kind of pair and case).
+  if (!kSkipSignChecks) {
+    vh::Rng& r = c.rng;
+    std::set<std::string> reported;
+    auto is_face = [&](size_t p, size_t q) { return std::find(mfaces[p].begin(), mfaces[p].end(), q) != mfaces[p].end(); };
+    // the kind of a non-incident pair, from the coordinates only
+    auto kind_of = [&](size_t p, size_t q) -> std::string {
+      if (p == q) return "same_cell_twice";
+      int ndiff = 0, dir = -1;
+      for (int i = 0; i < d; ++i) if (coord[p][i] != coord[q][i]) { ++ndiff; dir = i; }
+      if (ndiff >= 2) return "several_coordinates_differ";
+      if (is_face(q, p)) return "face_and_coface_swapped";
+      if (S.per[dir] && coord[q][dir] == 0) return "same_line_to_coordinate_0_of_periodic_direction";
+      return mdim[p] == mdim[q] ? "same_line_same_dimension" : "same_line_not_adjacent";
+    };
+    auto report = [&](size_t p, size_t q, const std::string& kind, const std::string& what) {
+      if (!reported.insert(kind).second) return;
+      c.violation("incidence.throws_on_non_incident", class_sig(S) + ",pair=" + kind,
+                  "compute_incidence_between_cells(" + vh::str(p) + " " + G.show(coord[p]) + ", " + vh::str(q) + " " + G.show(coord[q]) + ") " + what +
+                  "; the second cell is not a codimension-1 face of the first one, the documentation promises std::logic_error");
+    };
+    auto probe = [&](size_t p, size_t q) {
+      if (is_face(p, q)) { c.count("skip.nonincident_probe_is_incident"); return; }
+      if (p == q) return;   // probed in a child process below
+      const std::string kind = kind_of(p, q);
+      int value = 0;
+      int out = incidence_outcome(b, p, q, &value);
+      c.count("probe.nonincident");
+      c.count("probe.nonincident." + kind);
+      if (out != 0) report(p, q, kind, out == 1 ? "returned " + vh::str(value) : std::string("threw something that is not a std::logic_error"));
+    };
+    const int rounds = N <= 9 ? (int)N : 12;
+    for (int it = 0; it < rounds; ++it) {
+      size_t p = N <= 9 ? (size_t)it : (size_t)r.below(N);
+      // (a) the pair in the wrong order: (face, coface)
+      if (!mfaces[p].empty()) probe(mfaces[p][r.below(mfaces[p].size())], p);
+      // (b) another cell of the same line: only one coordinate differs
+      {
+        std::vector<int> wide; for (int i = 0; i < d; ++i) if (G.ext[i] >= 3) wide.push_back(i);
+        if (!wide.empty()) {
+          int i = wide[r.below(wide.size())];
+          Coord cq = coord[p];
+          int x = cq[i], y = (int)r.below((uint64_t)G.ext[i] - 1); if (y >= x) ++y;
+          if (S.per[i] && r.chance(1, 3) && x != 0) y = 0;     // the coordinate the periodic class treats specially
+          cq[i] = y;
+          probe(p, G.index(cq));
+        }
+      }
+      // (c) a face of a face (two dimensions apart), (d) any other cell
+      if (mdim[p] >= 2) { size_t f = mfaces[p][r.below(mfaces[p].size())]; probe(p, mfaces[f][r.below(mfaces[f].size())]); }
+      probe(p, (size_t)r.below(N));
+    }
+    // (e) (A, A): a library that indexes its counters with -1 here takes the process down, hence the child process
+    if (S.probe_self || r.chance(1, 16)) {
+      size_t ps[3] = {(size_t)r.below(N), (size_t)r.below(N), (size_t)r.below(N)};
+      int out = forked([&]() { int worst = 0, value = 0; for (size_t p : ps) worst = std::max(worst, incidence_outcome(b, p, p, &value)); return worst; });
+      if (out == kForkFailed) c.count("skip.fork_failed");
+      else { c.count("probe.nonincident", 3); c.count("probe.nonincident.same_cell_twice", 3); }
+      if (out != 0 && out != kForkFailed) report(ps[0], ps[0], "same_cell_twice", out == 1 ? std::string("returned a value") : out == 2 ? std::string("threw something that is not a std::logic_error") :
+                           "took the (forked) process down, " + (out < 0 ? "signal " + vh::str(-out) : "status " + vh::str(out)));
+    }
+  }
+
+  // ---- the documented "build by hand" route: constructor from the sizes (an empty bitmap), values written through the public
+  //      iterators, then impose_lower_star_filtration() / impose_lower_star_filtration_from_vertices()  ==  the model filtration
+  if (S.route == kVector) {
+    typedef typename Maker<Cx>::BaseT BaseT;
+    std::vector<unsigned> sizes; for (int i = 0; i < d; ++i) sizes.push_back((unsigned)S.n[i]);
+    std::unique_ptr<BaseT> hp = Maker<Cx>::make_sizes(sizes, dirs);
+    BaseT& h = *hp;
+    c.count(S.vertex_input ? "handbuilt.vertices" : "handbuilt.top");
+    const std::string hs = class_sig(S) + ",input=" + (S.vertex_input ? "vertices" : "top") + ",route=sizes_constructor+iterators+impose";
+    bool built = true;
+    if (h.size() != N) { c.violation("handbuilt.cells.count", hs, "size()=" + vh::str(h.size()) + " model " + vh::str(N)); built = false; }
+    if (built) {
+      size_t i = 0;
+      if (S.vertex_input) {
+        for (auto v : h.vertices_range()) { if (i >= S.input.size() || v >= N) { i = S.input.size() + 1; break; } h.get_cell_data(v) = (FT)S.input[i++]; }
+        if (i == S.input.size()) h.impose_lower_star_filtration_from_vertices();
+      } else if (!side0) {
+        for (auto t : h.top_dimensional_cells_range()) { if (i >= S.input.size() || t >= N) { i = S.input.size() + 1; break; } h.get_cell_data(t) = (FT)S.input[i++]; }
+        if (i == S.input.size()) h.impose_lower_star_filtration();
+      }
+      if (i != S.input.size()) { c.violation("handbuilt.range_length", hs, "the range visits " + std::string(i > S.input.size() ? "more than " : "") + vh::str(std::min(i, S.input.size())) + " cells, the input has " + vh::str(S.input.size())); built = false; }
+    }
+    if (built) {
+      size_t bad = 0, first = 0;
+      for (size_t p = N; p-- > 0;) if (!((double)h.get_cell_data(p) == mval[p])) { ++bad; first = p; }
+      c.count("cmp.handbuilt.equals_vector_built");
+      if (bad) c.violation("handbuilt.equals_vector_built", hs, vh::str(bad) + " of " + vh::str(N) + " cells differ, first: cell " + vh::str(first) + " " + G.show(coord[first]) + " of dimension " +
+                           vh::str(mdim[first]) + " hand-built " + dstr((double)h.get_cell_data(first)) + " expected " + dstr(mval[first]));
+    }
+  }
+
   // ---- filtration order: total, non-decreasing, faces first
   std::vector<size_t> order = b.filtration_simplex_range();
   std::vector<long> pos(N, -1);
@@ -265,12 +540,13 @@ void check_grid(vh::Case& c, const Spec& S) {
       if (b.simplex(i) != order[i]) { c.violation("order.simplex_of_key", sig0, "simplex(" + vh::str(i) + ") is not the i-th cell of the filtration range"); return; }
   }
 
-  if (!S.do_persistence) { c.count("skip.persistence_large_grid"); return; }
-
+  size_t positive_pairs = 0;
+  if (!S.do_persistence) c.count("skip.persistence_large_grid");
+  if (S.do_persistence) {
   // ---- persistence over Z_p against the naive reduction of the model (cells listed in the validated filtration order)
   const int kper = G.num_periodic();
   std::vector<oracle::Cell> ocells;
-  if (S.oracle_reduction) {
+  if (S.compare == kReduction) {
     ocells.resize(N);
     for (size_t i = 0; i < N; ++i) {
       size_t p = order[i];
@@ -278,8 +554,7 @@ void check_grid(vh::Case& c, const Spec& S) {
       for (size_t t = 0; t < mfaces[p].size(); ++t) ocells[i].bdry.emplace_back((int)pos[mfaces[p][t]], (oracle::i64)msign[p][t]);
     }
   }
-  size_t positive_pairs = 0;
-  for (int prime : {2, 3, 5}) {
+  for (int prime : {2, 3, S.third_prime}) {
     typedef Gudhi::persistent_cohomology::Field_Zp Field_Zp;
     typedef Gudhi::persistent_cohomology::Persistent_cohomology<Cx, Field_Zp> PC;
     const std::string ps = sig0 + ",p=" + vh::str(prime);
@@ -304,8 +579,9 @@ void check_grid(vh::Case& c, const Spec& S) {
     std::vector<int> bn = pcoh.betti_numbers();
     for (int j = 0; j <= d && j < (int)bn.size(); ++j) if (bn[j] != wbetti[j]) { c.violation("persistence.betti_torus", ps + ",betti_numbers()", "betti_numbers()=" + vh::vstr(bn) + " expected " + vh::vstr(wbetti)); return; }
     if (kper > 0) c.count("betti.periodic_checked");
+    if (prime > 5) c.count("cmp.persistence.prime_above_5");
 
-    if (S.oracle_reduction) {
+    if (S.compare == kReduction) {
       oracle::Reduction red = oracle::reduce(ocells, prime);
       std::vector<BD> want_pos;
       for (auto& bar : red.bars) {
@@ -328,20 +604,24 @@ void check_grid(vh::Case& c, const Spec& S) {
         c.violation("persistence.diagram", ps, "Persistent_cohomology " + oracle::show(gd) + " independent reduction " + oracle::show(wd));
         return;
       }
-    } else {
+    } else if (S.compare == kConstant) {
       c.count("cmp.persistence_constant.p" + vh::str(prime));
       if (!got_pos.empty()) {
         // on a constant (finite) grid only the essential classes have positive length
         for (auto& q : got_pos) if (q.second >= 0) { c.violation("persistence.constant_grid", ps, "finite interval of positive length on a constant grid"); return; }
       }
+    } else {
+      c.count("cmp.persistence_betti_only.p" + vh::str(prime));
     }
   }
 
-  if (S.oracle_reduction && d >= 2 && distinct.size() >= 2 && positive_pairs >= 2) {
+  if (S.compare == kReduction && d >= 2 && distinct.size() >= 2 && positive_pairs >= 2) {
     uint64_t h = vh::hash_str(vh::G().history);
     c.nontrivial(h);
   }
-  if (!S.oracle_reduction && kper >= 1 && d >= 2) c.nontrivial(vh::hash_str(vh::G().history));
+  if (S.compare != kReduction && kper >= 1 && d >= 2) c.nontrivial(vh::hash_str(vh::G().history));
+  }
+
   c.sample("{\"history\":\"" + vh::jesc(vh::G().history.substr(0, 400)) + "\",\"cells\":" + vh::str(N) + ",\"positive_pairs\":" + vh::str(positive_pairs) + "}");
 }
 
@@ -364,14 +644,17 @@ inline void shape_from_id(Spec& S, size_t id) {
   for (int i = 0; i < d; ++i) { set_side(S, opt[id % o].first, opt[id % o].second); id /= o; }
 }
 
-inline void fill_values(vh::Rng& r, Spec& S) {
+// `fine`: many more levels (long sides), `file`: only what the file format documents (finite values and +inf)
+inline void fill_values(vh::Rng& r, Spec& S, bool fine = false, bool file = false) {
   Grid G(S.n, S.per);
   size_t cnt = S.vertex_input ? G.num_vert() : G.num_top();
   static const int levels[] = {1, 2, 3, 4, 4, 4, 8, 16, 64};
-  int L = levels[r.below(sizeof(levels) / sizeof(levels[0]))];
+  static const int fine_levels[] = {4, 16, 64, 256, 1024, 4096};
+  int L = fine ? fine_levels[r.below(sizeof(fine_levels) / sizeof(fine_levels[0]))] : levels[r.below(sizeof(levels) / sizeof(levels[0]))];
   unsigned inf_den = (unsigned)r.pick(std::vector<int>{0, 0, 0, 16, 6, 2});   // probability 1/inf_den of +inf per value (0 = never)
   int shift = (int)r.below(3) - 1;
   unsigned ninf_den = r.chance(1, 6) ? (unsigned)r.pick(std::vector<int>{12, 4}) : 0u;    // -inf as well in 1/6 of the cases
+  if (file) ninf_den = 0;
   S.input.resize(cnt);
   for (size_t i = 0; i < cnt; ++i) {
     if (inf_den && r.chance(1, inf_den)) S.input[i] = kInf;
@@ -379,6 +662,8 @@ inline void fill_values(vh::Rng& r, Spec& S) {
     else S.input[i] = 0.25 * (double)((long)r.below((uint64_t)L) + shift * (L / 2));
   }
   if (r.chance(1, 60)) for (auto& v : S.input) v = kInf;
+  // the third prime of the persistence comparison (drawn last: the values of a case do not depend on it)
+  S.third_prime = r.pick(std::vector<int>{5, 5, 7, 11});
 }
 
 // random shape of dimension d with the given periodic mask; cells bounded by `cap`
@@ -394,19 +679,66 @@ inline void random_shape(vh::Rng& r, Spec& S, int d, unsigned mask, size_t cap, 
 }
 
 template <class Cx>
+Spec new_spec(bool vertex_input) {
+  Spec S; S.periodic_class = Maker<Cx>::periodic_class; S.is_float = Maker<Cx>::is_float; S.vertex_input = vertex_input;
+  return S;
+}
+
+template <class Cx>
 void shapes_case(vh::Case& c, bool vertex_input) {
-  Spec S; S.periodic_class = Maker<Cx>::periodic_class; S.vertex_input = vertex_input;
+  Spec S = new_spec<Cx>(vertex_input);
   shape_from_id(S, (size_t)c.k % num_shapes(S.periodic_class, 3));
   fill_values(c.rng, S);
   check_grid<Cx>(c, S);
 }
 
+// every shape, both input conventions in turn (float unit)
+template <class Cx>
+void shapes_both_case(vh::Case& c) {
+  size_t ns = num_shapes(Maker<Cx>::periodic_class, 3);
+  shapes_case<Cx>(c, (((size_t)c.k / ns) & 1) != 0);
+}
+
 template <class Cx>
 void dim4_case(vh::Case& c, bool vertex_input) {
-  Spec S; S.periodic_class = Maker<Cx>::periodic_class; S.vertex_input = vertex_input;
+  Spec S = new_spec<Cx>(vertex_input);
   unsigned mask = S.periodic_class ? (unsigned)(c.k % 16) : 0u;
   random_shape(c.rng, S, 4, mask, c.thorough ? 4200 : 2600);
   fill_values(c.rng, S);
+  check_grid<Cx>(c, S);
+}
+
+// 5-dimensional grids, small sides (periodic sides 3, other sides 1..2 cells / 1..3 vertices), every periodic mask (k / 2 mod 32),
+// both input conventions (k mod 2).  Grids above 3000 cells: closed-form Betti numbers instead of the naive reduction.
+template <class Cx>
+void dim5_case(vh::Case& c) {
+  Spec S = new_spec<Cx>((c.k & 1) != 0);
+  unsigned mask = S.periodic_class ? (unsigned)((c.k / 2) % 32) : 0u;
+  for (int i = 0; i < 5; ++i) {
+    bool per = (mask >> i) & 1;
+    set_side(S, per ? 3 : (S.vertex_input ? 1 + (int)c.rng.below(3) : 1 + (int)c.rng.below(2)), per);
+  }
+  fill_values(c.rng, S);
+  Grid G(S.n, S.per);
+  if (G.ncells > 3000) S.compare = kBettiOnly;
+  c.count(S.per[4] ? "grid.d5.fifth_direction_periodic" : "grid.d5.fifth_direction_not_periodic");
+  check_grid<Cx>(c, S);
+}
+
+// long sides with random values: 1-D with 1000 cells/vertices, 2-D 40 x 25, 2-D with random sides up to 40, 3-D with sides up to 9
+template <class Cx>
+void long_case(vh::Case& c) {
+  vh::Rng& r = c.rng;
+  Spec S = new_spec<Cx>((c.k & 1) != 0);
+  int kind = (int)((c.k / 2) % 4);
+  int d = kind == 0 ? 1 : kind == 3 ? 3 : 2;
+  unsigned mask = S.periodic_class ? (unsigned)((c.k / 8) % (1u << d)) : 0u;
+  auto per = [&](int i) { return (char)((mask >> i) & 1); };
+  if (kind == 0) set_side(S, 1000, per(0));
+  else if (kind == 1) { bool sw = r.chance(1, 2); set_side(S, sw ? 25 : 40, per(0)); set_side(S, sw ? 40 : 25, per(1)); }
+  else if (kind == 2) { set_side(S, 5 + (int)r.below(36), per(0)); set_side(S, 5 + (int)r.below(20), per(1)); }
+  else { std::vector<int> l = {5 + (int)r.below(5), 3 + (int)r.below(5), 3 + (int)r.below(3)}; r.shuffle(l); for (int i = 0; i < 3; ++i) set_side(S, l[i], per(i)); }
+  fill_values(r, S, /*fine=*/r.chance(2, 3));
   check_grid<Cx>(c, S);
 }
 
@@ -414,8 +746,8 @@ void dim4_case(vh::Case& c, bool vertex_input) {
 template <class Cx>
 void betti_case(vh::Case& c) {
   vh::Rng& r = c.rng;
-  Spec S; S.periodic_class = Maker<Cx>::periodic_class; S.vertex_input = r.chance(1, 2);
-  S.oracle_reduction = false;
+  Spec S = new_spec<Cx>(r.chance(1, 2));
+  S.compare = kConstant;
   int d = 1 + (int)(c.k % 4);
   unsigned mask = S.periodic_class ? (unsigned)((c.k / 4) % (1u << d)) : 0u;
   if (S.periodic_class && mask == 0 && r.chance(3, 4)) mask = 1u + (unsigned)r.below((1u << d) - 1);
@@ -424,6 +756,24 @@ void betti_case(vh::Case& c) {
   double v = 0.5 * (double)r.range(-3, 3);
   S.input.assign(S.vertex_input ? G.num_vert() : G.num_top(), v);
   c.count("grid.constant");
+  check_grid<Cx>(c, S);
+}
+
+// top-cell values written to a Perseus-style file and read back through the const char* constructor.
+// inf_mode 0: finite values only, 1: as drawn, 2: at least one `inf`
+template <class Cx>
+void file_case(vh::Case& c, int inf_mode) {
+  vh::Rng& r = c.rng;
+  Spec S = new_spec<Cx>(false);
+  S.route = kFile;
+  int d = 1 + (int)(c.k % 4);
+  unsigned mask = S.periodic_class ? (unsigned)((c.k / 4) % (1u << d)) : 0u;
+  random_shape(r, S, d, mask, 1200, d == 1 ? 12 : d == 2 ? 8 : 4);
+  fill_values(r, S, false, /*file=*/true);
+  if (inf_mode == 0) for (auto& v : S.input) if (v == kInf) v = 0.25 * (double)r.range(-8, 8);
+  if (inf_mode == 2 && !std::count(S.input.begin(), S.input.end(), kInf)) S.input[r.below(S.input.size())] = kInf;
+  S.file_final_newline = r.chance(1, 2);
+  S.file_format = (int)r.below(3);
   check_grid<Cx>(c, S);
 }
 
